@@ -76,7 +76,7 @@ func (a hact) String() string {
 	case 5:
 		return fmt.Sprintf("Write(%dx%d)", a.n, a.tag)
 	case 6:
-		return "Flush"
+		return [...]string{"Flush", "ResponseController.Flush", "FlushError"}[a.n%3]
 	}
 	return "Hijack"
 }
@@ -239,7 +239,7 @@ func genCacheControl(r *rand.Rand) (val string, forbid bool, maxAge int64) {
 			}
 			parts = append(parts, ows(r)+caseFlip(r, "max-age")+ows(r)+"="+ows(r)+s+ows(r))
 		case k < 8:
-			parts = append(parts, ows(r)+pick(r, []string{"public", "must-revalidate", "s-maxage=10", "no-transform", "x-no-store", "no-storex", "privatex=1", "ext=\"q\""})+ows(r))
+			parts = append(parts, ows(r)+pick(r, []string{"public", "must-revalidate", "s-maxage=10", "no-transform", "x-no-store", "no-storex", "privatex=1", "ext=\"q\"", "ext=\"abc", "x=\"a", "y=\"a, b", "z=\"", "w=\"a\\\"b"})+ows(r))
 		case k < 9:
 			parts = append(parts, ows(r))
 		default:
@@ -396,8 +396,20 @@ func streamHTTP(o opts) {
 					retainedB[req.URL.Path] = append(retainedB[req.URL.Path], buf)
 					smu.Unlock()
 				case 6:
-					if f, ok := rw.(http.Flusher); ok {
-						f.Flush()
+					// three ways a handler can flush: http.Flusher, the FlushError method, http.ResponseController
+					switch a.n {
+					case 1:
+						http.NewResponseController(rw).Flush()
+					case 2:
+						if f, ok := rw.(interface{ FlushError() error }); ok {
+							f.FlushError()
+						} else if f, ok := rw.(http.Flusher); ok {
+							f.Flush()
+						}
+					default:
+						if f, ok := rw.(http.Flusher); ok {
+							f.Flush()
+						}
 					}
 				case 7:
 					if hj, ok := rw.(http.Hijacker); ok {
@@ -510,7 +522,7 @@ func streamHTTP(o opts) {
 				streamed = true
 			} else {
 				if shape == 7 { // flush before any Write/WriteHeader (the SSE pattern): implicit 200 sent by the flush
-					acts = append(acts, hact{kind: 6})
+					acts = append(acts, hact{kind: 6, n: r.Intn(3)})
 					streamed = true
 					status = 200
 				} else if shape != 2 { // shape 2: implicit status
@@ -522,7 +534,7 @@ func streamHTTP(o opts) {
 					acts = append(acts, hact{kind: 4, code: pick(r, []int{500, 404, 201, 200, 410})}) // superfluous second status: ignored by net/http, must be ignored by the snapshot too
 				}
 				if shape == 4 {
-					acts = append(acts, hact{kind: 6})
+					acts = append(acts, hact{kind: 6, n: r.Intn(3)})
 					streamed = true
 				}
 				// body: several writes, sometimes landing exactly on the limit
@@ -546,7 +558,7 @@ func streamHTTP(o opts) {
 					flagLate = true
 				}
 				if shape == 6 {
-					acts = append(acts, hact{kind: 6})
+					acts = append(acts, hact{kind: 6, n: r.Intn(3)})
 					streamed = true
 				}
 			}
